@@ -1,0 +1,49 @@
+//go:build verif
+
+// Contracts for package xyz, read by /verif's govc. Comment-only.
+package xyz
+
+// C15: 3D distances over the reals (no NaN ordinates). pd3(p, a, b, t) is the squared distance from p to
+// a + t(b-a); sd3(a, b, c, d, s, t) the squared distance between a + s(b-a) and c + t(d-c).
+
+//@ func Distance
+//@   floats real
+//@   requires len(point1) >= 3 && len(point2) >= 3
+//@   ensures res >= 0.0 && res * res == dot3(point1[0]-point2[0], point1[1]-point2[1], point1[2]-point2[2], point1[0]-point2[0], point1[1]-point2[1], point1[2]-point2[2])
+//@   modifies nothing
+
+//@ func Equals
+//@   floats real
+//@   requires len(point1) >= 3 && len(other) >= 3
+//@   ensures res <==> (point1[0] == other[0] && point1[1] == other[1] && point1[2] == other[2])
+//@   modifies nothing
+
+//@ func VectorDot
+//@   floats real
+//@   requires len(v1Start) >= 3 && len(v1End) >= 3 && len(v2Start) >= 3 && len(v2End) >= 3
+//@   ensures res == dot3(v1End[0]-v1Start[0], v1End[1]-v1Start[1], v1End[2]-v1Start[2], v2End[0]-v2Start[0], v2End[1]-v2Start[1], v2End[2]-v2Start[2])
+//@   modifies nothing
+
+//@ func DistancePointToLine
+//@   floats real
+//@   requires len(point) >= 3 && len(lineStart) >= 3 && len(lineEnd) >= 3
+//@   ensures [nonneg] res >= 0.0
+//@   ensures [lower] forall t float64 :: 0.0 <= t && t <= 1.0 ==> res * res <= pd3(point[0], point[1], point[2], lineStart[0], lineStart[1], lineStart[2], lineEnd[0], lineEnd[1], lineEnd[2], t)
+//@   ensures [attained] res * res == psd3(point[0], point[1], point[2], lineStart[0], lineStart[1], lineStart[2], lineEnd[0], lineEnd[1], lineEnd[2])
+//@   modifies nothing
+
+// segment to segment. With A = line1Start, B = line1End, C = line2Start, D = line2End:
+//   a zero-length segment reduces to point-segment; when the stationary point (s, t) of the squared distance
+//   lies in the unit square it is the global minimum (lemmas gramIdentity, gramInteriorMin); otherwise the
+//   minimum over the square lies on its boundary, i.e. it is the least of the four endpoint-segment distances.
+//@ func DistanceLineToLine
+//@   floats real
+//@   requires len(line1Start) >= 3 && len(line1End) >= 3 && len(line2Start) >= 3 && len(line2End) >= 3
+//@   ensures [nonneg] res >= 0.0
+//@   ensures [degenerate1] line1Start[0] == line1End[0] && line1Start[1] == line1End[1] && line1Start[2] == line1End[2] ==> res * res == psd3(line1Start[0], line1Start[1], line1Start[2], line2Start[0], line2Start[1], line2Start[2], line2End[0], line2End[1], line2End[2])
+//@   ensures [degenerate2] !(line1Start[0] == line1End[0] && line1Start[1] == line1End[1] && line1Start[2] == line1End[2]) && line2Start[0] == line2End[0] && line2Start[1] == line2End[1] && line2Start[2] == line2End[2] ==> res * res == psd3(line2Start[0], line2Start[1], line2Start[2], line1Start[0], line1Start[1], line1Start[2], line1End[0], line1End[1], line1End[2])
+//@   ensures [interior] !(line1Start[0] == line1End[0] && line1Start[1] == line1End[1] && line1Start[2] == line1End[2]) && !(line2Start[0] == line2End[0] && line2Start[1] == line2End[1] && line2Start[2] == line2End[2]) && gramDen(line1Start[0], line1Start[1], line1Start[2], line1End[0], line1End[1], line1End[2], line2Start[0], line2Start[1], line2Start[2], line2End[0], line2End[1], line2End[2]) > 0.0 && inUnit(gramS(line1Start[0], line1Start[1], line1Start[2], line1End[0], line1End[1], line1End[2], line2Start[0], line2Start[1], line2Start[2], line2End[0], line2End[1], line2End[2])) && inUnit(gramT(line1Start[0], line1Start[1], line1Start[2], line1End[0], line1End[1], line1End[2], line2Start[0], line2Start[1], line2Start[2], line2End[0], line2End[1], line2End[2])) ==> res * res == sd3(line1Start[0], line1Start[1], line1Start[2], line1End[0], line1End[1], line1End[2], line2Start[0], line2Start[1], line2Start[2], line2End[0], line2End[1], line2End[2], gramS(line1Start[0], line1Start[1], line1Start[2], line1End[0], line1End[1], line1End[2], line2Start[0], line2Start[1], line2Start[2], line2End[0], line2End[1], line2End[2]), gramT(line1Start[0], line1Start[1], line1Start[2], line1End[0], line1End[1], line1End[2], line2Start[0], line2Start[1], line2Start[2], line2End[0], line2End[1], line2End[2]))
+//@   ensures [outside] !(line1Start[0] == line1End[0] && line1Start[1] == line1End[1] && line1Start[2] == line1End[2]) && !(line2Start[0] == line2End[0] && line2Start[1] == line2End[1] && line2Start[2] == line2End[2]) && gramDen(line1Start[0], line1Start[1], line1Start[2], line1End[0], line1End[1], line1End[2], line2Start[0], line2Start[1], line2Start[2], line2End[0], line2End[1], line2End[2]) > 0.0 && !(inUnit(gramS(line1Start[0], line1Start[1], line1Start[2], line1End[0], line1End[1], line1End[2], line2Start[0], line2Start[1], line2Start[2], line2End[0], line2End[1], line2End[2])) && inUnit(gramT(line1Start[0], line1Start[1], line1Start[2], line1End[0], line1End[1], line1End[2], line2Start[0], line2Start[1], line2Start[2], line2End[0], line2End[1], line2End[2]))) ==> res * res == llMin4(line1Start[0], line1Start[1], line1Start[2], line1End[0], line1End[1], line1End[2], line2Start[0], line2Start[1], line2Start[2], line2End[0], line2End[1], line2End[2])
+//@   ensures [parallelIn] !(line1Start[0] == line1End[0] && line1Start[1] == line1End[1] && line1Start[2] == line1End[2]) && !(line2Start[0] == line2End[0] && line2Start[1] == line2End[1] && line2Start[2] == line2End[2]) && gramDen(line1Start[0], line1Start[1], line1Start[2], line1End[0], line1End[1], line1End[2], line2Start[0], line2Start[1], line2Start[2], line2End[0], line2End[1], line2End[2]) <= 0.0 && inUnit(gramParT(line1Start[0], line1Start[1], line1Start[2], line1End[0], line1End[1], line1End[2], line2Start[0], line2Start[1], line2Start[2], line2End[0], line2End[1], line2End[2])) ==> res * res == sd3(line1Start[0], line1Start[1], line1Start[2], line1End[0], line1End[1], line1End[2], line2Start[0], line2Start[1], line2Start[2], line2End[0], line2End[1], line2End[2], 0.0, gramParT(line1Start[0], line1Start[1], line1Start[2], line1End[0], line1End[1], line1End[2], line2Start[0], line2Start[1], line2Start[2], line2End[0], line2End[1], line2End[2]))
+//@   ensures [parallelOut] !(line1Start[0] == line1End[0] && line1Start[1] == line1End[1] && line1Start[2] == line1End[2]) && !(line2Start[0] == line2End[0] && line2Start[1] == line2End[1] && line2Start[2] == line2End[2]) && gramDen(line1Start[0], line1Start[1], line1Start[2], line1End[0], line1End[1], line1End[2], line2Start[0], line2Start[1], line2Start[2], line2End[0], line2End[1], line2End[2]) <= 0.0 && !inUnit(gramParT(line1Start[0], line1Start[1], line1Start[2], line1End[0], line1End[1], line1End[2], line2Start[0], line2Start[1], line2Start[2], line2End[0], line2End[1], line2End[2])) ==> res * res == llMin4(line1Start[0], line1Start[1], line1Start[2], line1End[0], line1End[1], line1End[2], line2Start[0], line2Start[1], line2Start[2], line2End[0], line2End[1], line2End[2])
+//@   modifies nothing
